@@ -1,0 +1,10 @@
+//go:build verif
+
+package graphs
+
+// Contracts for gvc (see /verif/DESIGN.md). Comment-only: this file adds no code to any build.
+
+// BaseId/Id are fmt.Sprintf compositions of the key's fields: treated as uninterpreted deterministic
+// functions of the key (assumed; injectivity is NOT assumed).
+//@ func SymbolKey.BaseId pure trusted
+//@ func SymbolKey.Id pure trusted
